@@ -6,6 +6,7 @@ import (
 	"errors"
 	"fmt"
 	"google.golang.org/grpc/metadata"
+	"google.golang.org/protobuf/types/known/wrapperspb"
 	"io"
 	"strings"
 	"time"
@@ -88,7 +89,11 @@ func c14RPC(w *env.World, d *env.Direct, kind, outcome, tag string) {
 		return
 	}
 	ctx, cancel := context.WithCancel(context.Background())
-	defer cancel()
+	defer func() {
+		if !strings.HasPrefix(outcome, "sendbad") { // (that caller walks away WITHOUT cancelling: the failed SendMsg itself must release everything)
+			cancel()
+		}
+	}()
 	if outcome == "deadline" || outcome == "deadline-sub-ms" {
 		var c2 context.CancelFunc
 		dl := 50 * time.Millisecond
@@ -146,6 +151,20 @@ func c14RPC(w *env.World, d *env.Direct, kind, outcome, tag string) {
 	var log []c07Op
 	never := func() bool { return false }
 	switch {
+	case outcome == "sendbad" || outcome == "sendbad-utf8":
+		// one SendMsg is given a message the codec cannot encode (nothing reaches the transport); the caller
+		// walks away without cancelling, as it may after a failed SendMsg
+		runOps(r, cs, "S", never, &log, &n)
+		var err error
+		if outcome == "sendbad" {
+			err = cs.SendMsg("not a protobuf message")
+		} else {
+			err = cs.SendMsg(&wrapperspb.StringValue{Value: "\xff\xfe invalid utf-8"})
+		}
+		if err == nil {
+			vsched.Fail("C14/release|harness", "SendMsg of an unencodable message reported success")
+		}
+		r.CSendErrs = append(r.CSendErrs, fmt.Sprint(err))
 	case outcome == "sendfail":
 		// one SendMsg fails in the transport while the connection stays usable
 		runOps(r, cs, "S", never, &log, &n)
@@ -204,14 +223,14 @@ func c14RPC(w *env.World, d *env.Direct, kind, outcome, tag string) {
 func c14(tier string) []*explore.Scenario {
 	var out []*explore.Scenario
 	kinds := []string{"Unary", "Bidi", "SStream", "CStream"}
-	outcomes := []string{"ok", "herr", "cancel0", "cancel1", "cancel2", "cancel3", "deadline", "reset", "lateempty", "openfail", "sendfail", "cancelsend", "cancelinsend", "deadline-sub-ms"}
+	outcomes := []string{"ok", "herr", "cancel0", "cancel1", "cancel2", "cancel3", "deadline", "reset", "lateempty", "openfail", "sendfail", "cancelsend", "cancelinsend", "deadline-sub-ms", "sendbad", "sendbad-utf8"}
 	bound := 1
 	if tier == "thorough" {
 		bound = 2
 	}
 	for _, k := range kinds {
 		for _, o := range outcomes {
-			if k == "Unary" && (o == "reset" || o == "lateempty" || o == "sendfail" || o == "cancelinsend" || (strings.HasPrefix(o, "cancel") && o != "cancel0")) {
+			if k == "Unary" && (o == "reset" || o == "lateempty" || o == "sendfail" || o == "cancelinsend" || strings.HasPrefix(o, "sendbad") || (strings.HasPrefix(o, "cancel") && o != "cancel0")) {
 				continue
 			}
 			out = append(out, c14One([][2]string{{k, o}}, bound))
